@@ -6,6 +6,7 @@
 import Mathlib.Data.Matrix.Mul
 import Mathlib.Analysis.Real.Sqrt
 import Mathlib.Algebra.BigOperators.Fin
+import Mathlib.Algebra.BigOperators.Field
 import Mathlib.Tactic.Ring
 import Mathlib.Tactic.Linarith
 import Mathlib.Tactic.FieldSimp
@@ -539,6 +540,66 @@ def toMat {K : Type} [Zero K] (n m : ℕ) (M : Matrix K) : _root_.Matrix (Fin n)
 @[simp] theorem toMat_apply {K : Type} [Zero K] (n m : ℕ) (M : Matrix K) (i : Fin n) (j : Fin m) :
     toMat n m M i j = get M i j := rfl
 
+/-! ### lists, scalar products and matrix products as `Finset` sums -/
+
+section lists
+variable {K : Type} [Field K]
+
+theorem foldl_add_eq_sum (p : K) (ps : List K) : ps.foldl (· + ·) p = p + ps.sum := by
+  induction ps generalizing p with
+  | nil => simp
+  | cons a l ih => simp [ih, add_assoc]
+
+theorem sum_map_range (F : ℕ → K) (n : ℕ) : ((List.range n).map F).sum = ∑ k ∈ range n, F k := by
+  induction n with
+  | zero => simp
+  | succ n ih => simp [List.range_succ, sum_range_succ, ih]
+
+theorem zipWith_map_map {α β γ δ} (h : β → γ → δ) (f : α → β) (g : α → γ) (l : List α) :
+    List.zipWith h (l.map f) (l.map g) = l.map (fun x => h (f x) (g x)) := by
+  induction l with
+  | nil => rfl
+  | cons a l ih => simp [ih]
+
+theorem dot_eq_sum (xs ys : List K) : dot xs ys = (List.zipWith (· * ·) xs ys).sum := by
+  unfold dot
+  split
+  · next h => simp [h]
+  · next p ps h => rw [h, foldl_add_eq_sum, List.sum_cons]
+
+theorem dot_map_range (f g : ℕ → K) (n : ℕ) :
+    dot ((List.range n).map f) ((List.range n).map g) = ∑ k ∈ range n, f k * g k := by
+  rw [dot_eq_sum, zipWith_map_map, sum_map_range]
+
+theorem get_matMul {n m k : ℕ} {l r : Matrix K} (hl : Shaped n m l) (hr : Shaped m k r)
+    {i j : ℕ} (hi : i < n) (hj : j < k) :
+    get (matMul l r) i j = ∑ t ∈ range m, get l i t * get r t j := by
+  unfold matMul
+  rw [hl.1, hr.2.1, get_ofFn _ _ _ _ _ hi hj]
+  unfold row col
+  rw [hl.2.1, hr.1, dot_map_range]
+
+theorem shaped_matMul {n m k : ℕ} {l r : Matrix K} (hl : Shaped n m l) (hr : Shaped m k r) :
+    Shaped n k (matMul l r) := by
+  unfold matMul; rw [hl.1, hr.2.1]; exact shaped_ofFn _ _ _
+
+theorem toMat_matMul {n m k : ℕ} {l r : Matrix K} (hl : Shaped n m l) (hr : Shaped m k r) :
+    toMat n k (matMul l r) = toMat n m l * toMat m k r := by
+  ext i j
+  rw [toMat_apply, get_matMul hl hr i.isLt j.isLt, Matrix.mul_apply]
+  exact (Fin.sum_univ_eq_sum_range (fun t => get l i t * get r t j) m).symm
+
+theorem sumSq_eq (x : List K) : sumSq x = ∑ t ∈ range x.length, x.getD t 0 * x.getD t 0 := by
+  unfold sumSq
+  rw [foldl_add_eq_sum, zero_add]
+  induction x with
+  | nil => simp
+  | cons a l ih =>
+    rw [List.map_cons, List.sum_cons, ih, List.length_cons, sum_range_succ']
+    simp [add_comm]
+
+end lists
+
 /-! ### Cholesky over ℝ -/
 
 section choleskyReal
@@ -596,5 +657,342 @@ theorem cholesky_real {A L : Matrix ℝ} (h : cholesky A = some L) :
     ring
 
 end choleskyReal
+
+/-! ### Householder reflections over ℝ -/
+
+section householder
+open scoped EasyMl.RealModel
+
+
+/-- entries of the normalised vector: `v_t = u_t / ‖u‖` -/
+theorem householderV_getD (x : List ℝ) (t : ℕ) :
+    (householderV x).getD t 0
+      = (householderU x).getD t 0 / Real.sqrt (sumSq (householderU x)) := by
+  unfold householderV euclideanLength
+  simp only [RealModel.sqrt_eq]
+  rw [List.getD_eq_getElem?_getD, List.getD_eq_getElem?_getD, List.getElem?_map]
+  cases (householderU x)[t]? <;> simp
+
+theorem householderU_length (x : List ℝ) : (householderU x).length = x.length := by
+  simp [householderU]
+
+theorem householderV_length (x : List ℝ) : (householderV x).length = x.length := by
+  simp [householderV, householderU_length]
+
+/-- the normalised vector has unit length, or is zero (when `u = 0`: Lean's `x / 0 = 0`) -/
+theorem householderV_norm (x : List ℝ) :
+    (∑ t ∈ range x.length, (householderV x).getD t 0 * (householderV x).getD t 0 = 1) ∨
+      (∀ t, (householderV x).getD t 0 = 0) := by
+  have hs := sumSq_eq (householderU x)
+  rw [householderU_length] at hs
+  have hnn : 0 ≤ sumSq (householderU x) := by
+    rw [hs]; exact sum_nonneg (fun t _ => mul_self_nonneg _)
+  by_cases h0 : sumSq (householderU x) = 0
+  · right
+    intro t
+    rw [householderV_getD, h0, Real.sqrt_zero, div_zero]
+  · left
+    have hpos : 0 < sumSq (householderU x) := lt_of_le_of_ne hnn (Ne.symm h0)
+    have hsq : Real.sqrt (sumSq (householderU x)) * Real.sqrt (sumSq (householderU x))
+        = sumSq (householderU x) := Real.mul_self_sqrt hnn
+    have hne : Real.sqrt (sumSq (householderU x)) ≠ 0 := ne_of_gt (Real.sqrt_pos.mpr hpos)
+    simp only [householderV_getD]
+    have : ∀ t, (householderU x).getD t 0 / Real.sqrt (sumSq (householderU x)) *
+        ((householderU x).getD t 0 / Real.sqrt (sumSq (householderU x)))
+        = ((householderU x).getD t 0 * (householderU x).getD t 0) / sumSq (householderU x) := by
+      intro t
+      rw [div_mul_div_comm, hsq]
+    simp only [this]
+    rw [← Finset.sum_div, ← hs]
+    exact div_self h0
+
+/-- entries of the householder matrix: `δ_ij − (v_i·v_j)·2` -/
+theorem get_householder (x : List ℝ) {i j : ℕ} (hi : i < x.length) (hj : j < x.length) :
+    get (householder x) i j
+      = (if i = j then 1 else 0) - (householderV x).getD i 0 * (householderV x).getD j 0 * (1 + 1) := by
+  unfold householder
+  simp only []
+  rw [get_ofFn _ _ _ _ _ hi hj]
+  have hc : Shaped x.length 1 (⟨householderV x, x.length, 1⟩ : Matrix ℝ) :=
+    ⟨rfl, rfl, by simp [householderV_length]⟩
+  have hr : Shaped 1 x.length (⟨householderV x, 1, x.length⟩ : Matrix ℝ) :=
+    ⟨rfl, rfl, by simp [householderV_length]⟩
+  rw [get_matMul hc hr hi hj]
+  unfold identity
+  rw [get_ofFn _ _ _ _ _ hi hj]
+  simp [get, Matrix.getIndex]
+
+theorem shaped_householder (x : List ℝ) : Shaped x.length x.length (householder x) := by
+  unfold householder; exact shaped_ofFn _ _ _
+
+end householder
+
+/-! ### the QR loop over ℝ -/
+
+section qr
+open scoped EasyMl.RealModel
+
+/-- `H = 1 − 2·w wᵀ` with `‖w‖ = 1` (or `w = 0`) is symmetric and an involution -/
+theorem reflector_algebra {n : ℕ} (w : Fin n → ℝ) (hw : w ⬝ᵥ w = 1 ∨ w = 0) :
+    let H : _root_.Matrix (Fin n) (Fin n) ℝ := 1 - (2 : ℝ) • Matrix.vecMulVec w w
+    H.transpose = H ∧ H * H = 1 := by
+  intro H
+  have hPt : (Matrix.vecMulVec w w).transpose = Matrix.vecMulVec w w := by
+    ext i j; simp [Matrix.vecMulVec_apply, mul_comm]
+  constructor
+  · simp only [H, Matrix.transpose_sub, Matrix.transpose_one, Matrix.transpose_smul, hPt]
+  · have hPP : Matrix.vecMulVec w w * Matrix.vecMulVec w w = (w ⬝ᵥ w) • Matrix.vecMulVec w w := by
+      rw [Matrix.vecMulVec_mul_vecMulVec]
+      ext i j; simp [Matrix.vecMulVec_apply]; ring
+    simp only [H]
+    simp only [sub_mul, mul_sub, one_mul, mul_one, Matrix.smul_mul, Matrix.mul_smul, hPP]
+    rcases hw with h1 | h0
+    · rw [h1, one_smul]
+      ext i j
+      simp only [Matrix.sub_apply, Matrix.smul_apply, smul_eq_mul, Matrix.one_apply]
+      ring
+    · subst h0
+      ext i j
+      simp
+
+/-- the padded unit vector of the `c`-th reflection -/
+noncomputable def reflVec (rows c : ℕ) (r : Matrix ℝ) (i : ℕ) : ℝ :=
+  if c ≤ i then
+    (householderV ((List.range (rows - c)).map fun t => get r (c + t) c)).getD (i - c) 0
+  else 0
+
+theorem get_reflection {rows c : ℕ} (r : Matrix ℝ) (hc : c ≤ rows) {i j : ℕ} (hi : i < rows)
+    (hj : j < rows) :
+    get (reflection rows c r) i j
+      = (if i = j then 1 else 0) - reflVec rows c r i * reflVec rows c r j * (1 + 1) := by
+  unfold reflection
+  simp only []
+  rw [get_ofFn _ _ _ _ _ hi hj]
+  by_cases hij : c ≤ i ∧ c ≤ j
+  · obtain ⟨h1, h2⟩ := hij
+    rw [if_pos ⟨h1, h2⟩, get_householder _ (by simp; omega) (by simp; omega)]
+    unfold reflVec
+    rw [if_pos h1, if_pos h2]
+    have : (i - c = j - c) ↔ i = j := by omega
+    simp only [this]
+  · rw [if_neg (by simpa using hij)]
+    unfold identity
+    rw [get_ofFn _ _ _ _ _ hi hj]
+    unfold reflVec
+    by_cases h1 : c ≤ i
+    · have h2 : ¬ c ≤ j := fun h => hij ⟨h1, h⟩
+      simp [h2]
+    · simp [h1]
+
+theorem reflVec_norm (rows c : ℕ) (r : Matrix ℝ) (hc : c ≤ rows) :
+    (∑ i ∈ range rows, reflVec rows c r i * reflVec rows c r i = 1) ∨
+      (∀ i, reflVec rows c r i = 0) := by
+  set x := (List.range (rows - c)).map fun t => get r (c + t) c with hx
+  have hlen : x.length = rows - c := by simp [hx]
+  rcases householderV_norm x with h1 | h0
+  · left
+    have hsplit : rows = c + (rows - c) := by omega
+    rw [hsplit, sum_range_add]
+    have hz : ∑ i ∈ range c, reflVec (c + (rows - c)) c r i * reflVec (c + (rows - c)) c r i = 0 := by
+      apply sum_eq_zero
+      intro i hi
+      have := mem_range.mp hi
+      simp [reflVec, show ¬ c ≤ i by omega]
+    rw [hz, zero_add, ← hsplit]
+    rw [hlen] at h1
+    rw [← h1]
+    apply sum_congr rfl
+    intro t _
+    simp [reflVec, hx]
+  · right
+    intro i
+    unfold reflVec
+    split
+    · exact h0 _
+    · rfl
+
+theorem shaped_reflection (rows c : ℕ) (r : Matrix ℝ) : Shaped rows rows (reflection rows c r) := by
+  unfold reflection; exact shaped_ofFn _ _ _
+
+/-- every reflection of the QR loop is symmetric and an involution -/
+theorem reflection_orthogonal (rows c : ℕ) (r : Matrix ℝ) (hc : c ≤ rows) :
+    (toMat rows rows (reflection rows c r)).transpose = toMat rows rows (reflection rows c r) ∧
+    toMat rows rows (reflection rows c r) * toMat rows rows (reflection rows c r) = 1 := by
+  have hform : toMat rows rows (reflection rows c r)
+      = 1 - (2 : ℝ) • Matrix.vecMulVec (fun i : Fin rows => reflVec rows c r i)
+          (fun i : Fin rows => reflVec rows c r i) := by
+    ext i j
+    rw [toMat_apply, get_reflection r hc i.isLt j.isLt]
+    simp only [Matrix.sub_apply, Matrix.one_apply, Matrix.smul_apply, Matrix.vecMulVec_apply,
+      smul_eq_mul, Fin.ext_iff]
+    ring
+  rw [hform]
+  apply reflector_algebra
+  rcases reflVec_norm rows c r hc with h1 | h0
+  · left
+    unfold dotProduct
+    rw [Fin.sum_univ_eq_sum_range (fun i => reflVec rows c r i * reflVec rows c r i) rows]
+    exact h1
+  · right
+    funext i
+    exact h0 i
+
+
+/-- the accumulated `Q` as a Mathlib matrix (`None` = no reflection yet = the identity) -/
+noncomputable def qMat (rows : ℕ) (q : Option (Matrix ℝ)) : _root_.Matrix (Fin rows) (Fin rows) ℝ :=
+  match q with
+  | none => 1
+  | some q => toMat rows rows q
+
+/-- invariant of the QR loop -/
+structure QrInv (rows cols : ℕ) (A : _root_.Matrix (Fin rows) (Fin cols) ℝ)
+    (s : Option (Matrix ℝ) × Matrix ℝ) : Prop where
+  shapedR : Shaped rows cols s.2
+  shapedQ : ∀ q, s.1 = some q → Shaped rows rows q
+  product : qMat rows s.1 * toMat rows cols s.2 = A
+  orthogonal : (qMat rows s.1).transpose * qMat rows s.1 = 1
+
+theorem qrStep_inv {rows cols c : ℕ} {A : _root_.Matrix (Fin rows) (Fin cols) ℝ}
+    {s : Option (Matrix ℝ) × Matrix ℝ} (hinv : QrInv rows cols A s) (hc : c ≤ rows) :
+    QrInv rows cols A (qrStep rows c s) := by
+  obtain ⟨q, r⟩ := s
+  obtain ⟨hT, hHH⟩ := reflection_orthogonal rows c r hc
+  have hsh := shaped_reflection rows c r
+  have hR : toMat rows cols (matMul (reflection rows c r) r)
+      = toMat rows rows (reflection rows c r) * toMat rows cols r := toMat_matMul hsh hinv.shapedR
+  have hQ : qMat rows (qrStep rows c (q, r)).1 = qMat rows q * toMat rows rows (reflection rows c r) := by
+    cases q with
+    | none => simp [qrStep, qMat]
+    | some qp =>
+      simp only [qrStep, qMat]
+      exact toMat_matMul (hinv.shapedQ qp rfl) hsh
+  have hR' : (qrStep rows c (q, r)).2 = matMul (reflection rows c r) r := by
+    cases q <;> rfl
+  refine ⟨?_, ?_, ?_, ?_⟩
+  · rw [hR']; exact shaped_matMul hsh hinv.shapedR
+  · intro q' hq'
+    cases q with
+    | none => simp [qrStep] at hq'; rw [← hq']; exact hsh
+    | some qp =>
+      simp [qrStep] at hq'; rw [← hq']
+      exact shaped_matMul (hinv.shapedQ qp rfl) hsh
+  · rw [hQ, hR', hR]
+    have := hinv.product
+    simp only [] at this
+    rw [Matrix.mul_assoc, ← Matrix.mul_assoc (toMat rows rows (reflection rows c r)), hHH,
+      Matrix.one_mul, this]
+  · rw [hQ, Matrix.transpose_mul, hT, Matrix.mul_assoc,
+      ← Matrix.mul_assoc (qMat rows q).transpose, hinv.orthogonal, Matrix.one_mul, hHH]
+
+theorem toMat_identity (n : ℕ) : toMat n n (identity n : Matrix ℝ) = 1 := by
+  ext i j
+  rw [toMat_apply]
+  unfold identity
+  rw [get_ofFn _ _ _ _ _ i.isLt j.isLt]
+  simp [Matrix.one_apply, Fin.ext_iff]
+
+/-- **QR: product and orthogonality**, for every real `M × N` input with `M ≥ N` -/
+theorem qr_real {A Q R : Matrix ℝ} (h : qr A = some (Q, R)) :
+    A.columns ≤ A.rows ∧ Shaped A.rows A.rows Q ∧ Shaped A.rows A.columns R ∧
+    toMat A.rows A.rows Q * toMat A.rows A.columns R = toMat A.rows A.columns A ∧
+    (toMat A.rows A.rows Q).transpose * toMat A.rows A.rows Q = 1 := by
+  unfold qr at h
+  by_cases hw : A.columns > A.rows
+  · simp [hw] at h
+  · simp only [hw, if_false, Option.some.injEq, Prod.mk.injEq] at h
+    obtain ⟨hQ, hR⟩ := h
+    have h0 : QrInv A.rows A.columns (toMat A.rows A.columns A)
+        (none, ofFn A.rows A.columns (get A)) := by
+      refine ⟨shaped_ofFn _ _ _, ?_, ?_, ?_⟩
+      · intro q hq; cases hq
+      · simp only [qMat, Matrix.one_mul]
+        ext i j
+        rw [toMat_apply, toMat_apply, get_ofFn _ _ _ _ _ i.isLt j.isLt]
+      · simp [qMat]
+    have hinv := foldRange_inv (fun _ s => QrInv A.rows A.columns (toMat A.rows A.columns A) s)
+      (fun c s => qrStep A.rows c s) (min (A.rows - 1) A.columns) _ h0
+      (fun k t hk hP => qrStep_inv hP (by omega))
+    change QrInv A.rows A.columns (toMat A.rows A.columns A) (qrLoop A) at hinv
+    have hQm : toMat A.rows A.rows Q = qMat A.rows (qrLoop A).1 := by
+      rw [← hQ]
+      cases hq : (qrLoop A).1 with
+      | none => simp [qMat, toMat_identity]
+      | some q => simp [qMat]
+    refine ⟨by omega, ?_, ?_, ?_, ?_⟩
+    · rw [← hQ]
+      cases hq : (qrLoop A).1 with
+      | none =>
+        simp only [Option.getD_none]
+        unfold identity
+        exact shaped_ofFn A.rows A.rows _
+      | some q => exact hinv.shapedQ q hq
+    · rw [← hR]; exact hinv.shapedR
+    · rw [hQm, ← hR]; exact hinv.product
+    · rw [hQm]; exact hinv.orthogonal
+
+
+theorem householder_orthogonal_aux (x : List ℝ) :
+    (toMat x.length x.length (householder x)).transpose = toMat x.length x.length (householder x) ∧
+    toMat x.length x.length (householder x) * toMat x.length x.length (householder x) = 1 := by
+  have hform : toMat x.length x.length (householder x)
+      = 1 - (2 : ℝ) • Matrix.vecMulVec (fun i : Fin x.length => (householderV x).getD i 0)
+          (fun i : Fin x.length => (householderV x).getD i 0) := by
+    ext i j
+    rw [toMat_apply, get_householder x i.isLt j.isLt]
+    simp only [Matrix.sub_apply, Matrix.one_apply, Matrix.smul_apply, Matrix.vecMulVec_apply,
+      smul_eq_mul, Fin.ext_iff]
+    ring
+  rw [hform]
+  apply reflector_algebra
+  rcases householderV_norm x with h1 | h0
+  · left
+    unfold dotProduct
+    rw [Fin.sum_univ_eq_sum_range
+      (fun i => (householderV x).getD i 0 * (householderV x).getD i 0) x.length]
+    exact h1
+  · right
+    funext i
+    exact h0 i
+
+/-- For a non-zero column the vector `u = x ± ‖x‖·e₀` is non-zero: the sign choice adds two
+    numbers of the same sign, so the normalisation `u / ‖u‖` divides by a positive number. -/
+theorem sumSq_householderU_pos (x : List ℝ) (k : ℕ) (hk : x.getD k 0 ≠ 0) :
+    0 < sumSq (householderU x) := by
+  have hklen : k < x.length := by
+    by_contra hge
+    apply hk
+    rw [List.getD_eq_getElem?_getD, List.getElem?_eq_none (by omega)]; rfl
+  have hlen : 0 < x.length := by omega
+  -- ‖x‖ > 0
+  have hx : 0 < sumSq x := by
+    rw [sumSq_eq]
+    have hle : x.getD k 0 * x.getD k 0 ≤ ∑ t ∈ range x.length, x.getD t 0 * x.getD t 0 :=
+      single_le_sum (f := fun t => x.getD t 0 * x.getD t 0) (fun t _ => mul_self_nonneg _)
+        (mem_range.mpr hklen)
+    have : 0 < x.getD k 0 * x.getD k 0 := mul_self_pos.mpr hk
+    linarith
+  have hnorm : 0 < Real.sqrt (sumSq x) := Real.sqrt_pos.mpr hx
+  -- u₀ ≠ 0
+  have hu0 : (householderU x).getD 0 0 ≠ 0 := by
+    unfold householderU euclideanLength
+    simp only [RealModel.sqrt_eq]
+    rw [List.getD_eq_getElem?_getD, List.getElem?_set_self (by simpa using hlen)]
+    simp only [Option.getD_some]
+    by_cases hs : NumOrd.lt (0 : ℝ) (x.headD 0) = true
+    · rw [if_pos hs]
+      have := (RealModel.lt_eq _ _).mp hs
+      linarith
+    · rw [if_neg hs]
+      have : ¬ (0 : ℝ) < x.headD 0 := fun h => hs ((RealModel.lt_eq _ _).mpr h)
+      linarith
+  rw [sumSq_eq, householderU_length]
+  have hle : (householderU x).getD 0 0 * (householderU x).getD 0 0
+      ≤ ∑ t ∈ range x.length, (householderU x).getD t 0 * (householderU x).getD t 0 :=
+    single_le_sum (f := fun t => (householderU x).getD t 0 * (householderU x).getD t 0)
+      (fun t _ => mul_self_nonneg _) (mem_range.mpr hlen)
+  have : 0 < (householderU x).getD 0 0 * (householderU x).getD 0 0 := mul_self_pos.mpr hu0
+  linarith
+
+end qr
 
 end EasyMl.Decomp
